@@ -270,6 +270,45 @@ def audit_shared_state(chk):
                          json.dumps(dict(new=new, inventory=inv), indent=1))
 
 
+def memo_tables():
+    """every trackpy.utils.memo object of the modules a find_link job calls into: (qualified name, memo)"""
+    import importlib
+    from trackpy.utils import memo
+    out = []
+    for mn in ('trackpy.masks', 'trackpy.uncertainty', 'trackpy.preprocessing', 'trackpy.feature', 'trackpy.find', 'trackpy.refine.center_of_mass'):
+        mod = importlib.import_module(mn)
+        for nm, obj in sorted(vars(mod).items()):
+            if isinstance(obj, memo) and getattr(obj.func, '__module__', None) == mn:
+                out.append((mn + '.' + nm, obj))
+    return out
+
+
+def same_value(a, b):
+    if isinstance(a, (tuple, list)) and isinstance(b, (tuple, list)):
+        return len(a) == len(b) and all(same_value(x, y) for x, y in zip(a, b))
+    if isinstance(a, np.ndarray) or isinstance(b, np.ndarray):
+        a, b = np.asarray(a), np.asarray(b)
+        return a.shape == b.shape and a.dtype == b.dtype and bool(np.array_equal(a, b, equal_nan=(a.dtype.kind in 'fc')))
+    return a == b
+
+
+def memo_purity():
+    """the memoised tables (masks, kernels, coordinate moments) are handed out by reference and shared by every job of the
+    process: each cached value must still be what the undecorated function computes.  -> list of (table, args)"""
+    bad = []
+    n = 0
+    for name, m in memo_tables():
+        for args, val in list(m.cache.items()):
+            n += 1
+            try:
+                fresh = m.func(*args)
+            except Exception:
+                continue
+            if not same_value(val, fresh):
+                bad.append((name, repr(args)))
+    return n, bad
+
+
 def _run(chk):
     common.quiet_trackpy()
     chk.coq()
@@ -382,6 +421,16 @@ def _run(chk):
         except Exception as e:
             chk.violation('schedule raised', 'interleaved jobs raised %r' % e, dict(kind='schedule', case=jsonable_jobs(jobs, sched)))
             continue
+        if any(j['kind'] == 'find_link' for j in jobs):
+            ntab, badtab = memo_purity()
+            chk.tally('memoised tables compared with a fresh computation after a schedule with find_link jobs')
+            chk.coverage['memo_tables_checked'] = max(chk.coverage.get('memo_tables_checked', 0), ntab)
+            if badtab:
+                chk.violation('memoised table modified', 'after schedule %s the shared memoised table %s%s no longer equals what the function computes: a job wrote into an array '
+                              'that every later job in the process is handed' % (sched, badtab[0][0], badtab[0][1]),
+                              dict(kind='schedule', case=jsonable_jobs(jobs, sched), tables=badtab))
+                for name, m in memo_tables():
+                    m.cache.clear()
         if '_modified_argument' in inter:
             chk.violation('search_range array modified', 'a linking call modified the search_range array it was given: %s -> %s (other jobs using the same array are affected)' % inter.pop('_modified_argument'),
                           dict(kind='schedule', case=jsonable_jobs(jobs, sched)))
